@@ -48,7 +48,9 @@ LEVEL_TEXT = ("Lean 4 theorems over a chunk-metadata model of a pipeline languag
               "returns, along every symbol the common chunks are not (), every argument is rechunked to the common chunks or "
               "keeps the single chunk (1,), and some argument carries the common chunks (`commonBlockdim_total`: "
               "common_blockdim keeps the total in every branch, no positivity needed); hypotheses and conclusion are "
-              "evaluated on every generated real unify_chunks call (section `unifypost`).")
+              "evaluated on every generated real unify_chunks call (section `unifypost`). `ew_check_redundant` / "
+              "`ewLazy_eq_unchecked`: for elementwise index strings the hypotheses follow from broadcast_shapes accepting "
+              "the shapes, so the model's run-time check never refuses (arrays with at least one chunk per axis).")
 LEVEL_NOTE = ("Trusted: Lean kernel + standard axioms; the metadata model tied by a function-level diff of lazy chunks; the "
               "shape behaviour of the per-block NumPy kernels (broadcasting, transpose, sum, expand_dims, concatenate) is "
               "assumed as stated in the model; dtype inference (compute_meta) is oracle-only.")
